@@ -71,7 +71,8 @@ fn rdh_for(fmt: u8, payload_len: usize, page: u16, stop: u8) -> Rdh {
 
 fn check_validator(fmt: u8, n: usize, ff: usize, mode: Mode) -> Option<(String, String)> {
     let p = build_payload(fmt, n, ff);
-    let pos = 0x4000u64;
+    // an offset with a leading hexadecimal letter: the message must also be acceptable to the statistics stage
+    let pos = 0xF000u64;
     let r = rdh_for(fmt, p.len(), 0, 0);
     let out = val::validate_link(val::mode_cfg(mode), &[(r.encode().to_vec(), p.clone(), pos)]);
     if let Some(pn) = out.panic {
@@ -91,6 +92,9 @@ fn check_validator(fmt: u8, n: usize, ff: usize, mode: Mode) -> Option<(String, 
             }
             if !others.is_empty() {
                 return Some(("padding-error:words-examined".into(), format!("words of a rejected payload were examined: {}", others[0])));
+            }
+            if let Some((sig, d)) = crate::truth::check_sortable(&[pay[0].clone(), "0x40: [E10] another message".to_string()]) {
+                return Some((format!("padding-error:{sig}"), d));
             }
             None
         }
